@@ -3,6 +3,7 @@ package main
 import (
 	"bytes"
 	"encoding/json"
+	"strings"
 
 	"mvdan.cc/sh/v3/syntax"
 	"verif/harness/hlib"
@@ -29,8 +30,12 @@ func acceptEngine(raw json.RawMessage, _ []string) (any, error) {
 			out[ln] = map[string]any{"ok": true}
 			continue
 		}
+		class := "rejected"
+		if strings.Contains(err.Error(), "unclosed here-document") {
+			class = "unclosed-heredoc"
+		}
 		out[ln] = map[string]any{"ok": false, "err": err.Error(), "sig": sigParseError(err.Error(), string(src)),
-			"incomplete": syntax.IsIncomplete(err)}
+			"incomplete": syntax.IsIncomplete(err), "class": class}
 	}
 	return out, nil
 }
